@@ -15,14 +15,21 @@ Theorem C07_nothing_removed : forall fs d1 d2 fs' k,
   normalize_factors fs d1 d2 = Ok fs' -> lookk fs k <> None -> lookk fs' k <> None.
 Proof. exact normalize_keeps_defined. Qed.
 
-(** ambient heat, solar thermal and on-site electricity supply are (1, 0, 0) *)
+(** ambient heat, solar thermal and on-site electricity supply are (1, 0, 0); the last one when the set mentions
+    electricity at all (a set that says nothing about electricity stays so: C07_no_electricity_added) *)
 Theorem C07_forced : forall fs d1 d2 fs' k,
-  normalize_factors fs d1 d2 = Ok fs' -> In k forced_keys -> lookk fs' k = Some one.
+  normalize_factors fs d1 d2 = Ok fs' -> In k forced_keys -> (k = K_EL_INSITU -> In ELECTRICIDAD (carriers_of fs)) ->
+  lookk fs' k = Some one.
 Proof. intros fs d1 d2 fs' k H. exact (forced_fixed fs fs' d1 d2 H k). Qed.
 
-(** default export factors *)
+Theorem C07_no_electricity_added : forall fs d1 d2 fs',
+  normalize_factors fs d1 d2 = Ok fs' -> In ELECTRICIDAD (carriers_of fs') -> In ELECTRICIDAD (carriers_of fs).
+Proof. intros fs d1 d2 fs' H. exact (el_back fs fs' d1 d2 H). Qed.
+
+(** default export factors, for each exporting carrier the prepared set has a grid factor for (ambient heat and solar
+    thermal always have one) *)
 Theorem C07_export_defaults : forall fs d1 d2 fs' c dest,
-  normalize_factors fs d1 d2 = Ok fs' -> In (c, INSITU) exp_carriers -> dest <> SUMINISTRO ->
+  normalize_factors fs d1 d2 = Ok fs' -> In (c, INSITU) exp_carriers -> lookk fs' (grid_key c) <> None -> dest <> SUMINISTRO ->
   lookk fs' (c, INSITU, dest, STEP_A) = Some (match lookk fs (c, INSITU, dest, STEP_A) with Some x => x | None => one end) /\
   lookk fs' (c, INSITU, dest, STEP_B) = match lookk fs (c, INSITU, dest, STEP_B) with Some x => Some x | None => lookk fs' (grid_key c) end.
 Proof. exact export_defaults. Qed.
@@ -63,9 +70,19 @@ Theorem C07_rejects : forall fs d1 d2 c,
   In c (carriers_of fs) -> lookk (forced_updates fs) (grid_key c) = None -> normalize_factors fs d1 d2 = Err MissingFactor.
 Proof. exact normalize_rejects. Qed.
 
-Theorem C07_rejects_no_grid_electricity : forall fs d1 d2,
-  lookk fs (grid_key ELECTRICIDAD) = None -> normalize_factors fs d1 d2 = Err MissingFactor.
-Proof. exact normalize_needs_el. Qed.
+(** every carrier of the prepared set has its grid supply factor *)
+Theorem C07_prepared_carriers_have_grid_factors : forall fs d1 d2 fs' c,
+  normalize_factors fs d1 d2 = Ok fs' -> In c (carriers_of fs') -> lookk fs' (grid_key c) <> None.
+Proof. intros fs d1 d2 fs' c H. exact (prepared_grid fs fs' d1 d2 H c). Qed.
+
+(** a set that says nothing about electricity is usable (for buildings without electricity): the file written with
+    --of for such a building is one *)
+Example C07_gas_only_set_is_accepted :
+  let fs := [mkFactor GASNATURAL RED SUMINISTRO STEP_A (mkRNC (qfrac 5 1000) (qfrac 1190 1000) (qfrac 252 1000)) []] in
+  match normalize_factors fs default_red default_red with
+  | Ok fs' => length fs' = 15%nat /\ lookk fs' (grid_key ELECTRICIDAD) = None /\ normalize_factors fs' default_red default_red = Ok fs'
+  | Err _ => False end.
+Proof. vm_compute. repeat split; reflexivity. Qed.
 
 (** non-vacuity: a two-line file prepares to 22 factors, idempotently *)
 Example C07_example :
@@ -85,4 +102,5 @@ Print Assumptions C07_complete.
 Print Assumptions C07_idempotent.
 Print Assumptions C07_idempotent_user.
 Print Assumptions C07_rejects.
-Print Assumptions C07_rejects_no_grid_electricity.
+Print Assumptions C07_no_electricity_added.
+Print Assumptions C07_prepared_carriers_have_grid_factors.
